@@ -269,7 +269,7 @@ def main():
                     if line not in known_lines:
                         known_lines.append(line)
             else:
-                rp = replay.confirm(pid, n, r, hinfo.get(n, {}), workdir, log)
+                rp = replay.confirm(pid, n, r, hinfo.get(n, {}), plan["groups"].get(r.get("group"), {"features": [pid.lower()]}), workdir, log)
                 r["replay"] = rp
                 if rp["reproduced"]:
                     violations.append((n, rp["path"]))
